@@ -135,6 +135,22 @@ impl Driver for DispatcherSwap {
             }
             c.insert("dswap#never_offers_more_than_held".to_string(), ok);
             c.insert("dswap#proceeds_return_to_dispatcher".to_string(), returns);
+            let known: std::collections::BTreeSet<String> = input["swap_denoms"].as_array().unwrap().iter().map(|d| d.as_str().unwrap().to_string()).collect();
+            // with only the two reward coins held, the rebalancing swap is exactly what the split formula (the real get_swap_info, through its hook) asks for
+            let only_rewards = held.iter().all(|(d, a)| *a == 0 || d == "usei" || d == "uusd") && known.contains("usei") && known.contains("uusd");
+            if only_rewards {
+                use cosmwasm_std::Fraction;
+                let price = Decimal::new(Uint128::new(u(&input["price"])));
+                if let Some(inv) = price.inv() {
+                    let cfg = basset_sei_rewards_dispatcher::state::read_config(&deps.storage).unwrap();
+                    if let Ok((offer, _ask)) = basset_sei_rewards_dispatcher::contract::verif_get_swap_info(cfg, Uint128::new(u(&input["st"])), Uint128::new(u(&input["b"])),
+                            Uint128::new(*held.get("usei").unwrap_or(&0)), Uint128::new(*held.get("uusd").unwrap_or(&0)), inv, price) {
+                        let got = offered.get(&offer.denom).copied().unwrap_or(0);
+                        let total_offered: u128 = offered.values().sum();
+                        c.insert("dswap#requests_the_rebalancing_swap".to_string(), got == offer.amount.u128() && total_offered == offer.amount.u128());
+                    }
+                }
+            }
             obs = json!({"offered": offered.iter().map(|(d, a)| json!([d, a.to_string()])).collect::<Vec<_>>()});
         }
         (c, obs)
